@@ -20,7 +20,7 @@ from common import *
 
 RULE = ("tables and query points are drawn from VERIF_SEED (families: smooth, jittered, wild spacing ratios to 1e9, "
         "offsets to 1e8, ordinates 1e-20..1e20 mixed sign, plateaus, spikes, sign changes, monotone, zeros, exact "
-        "linear/parabola data, dyadic uniform tables compared exactly, float32 tables with float32 unit factors, "
+        "linear/parabola data, the same and general tables at joint scales x*2^Ex, y*2^Ey (|Ex| to 480: slopes 1e-120..1e160), dyadic uniform tables compared exactly, float32 tables with float32 unit factors, "
         "prefactors of either sign); a case is non-trivial when model and implementation both answer ok or both stop; "
         "it is counted once per distinct (op, family, size class, query class: knot / knot neighbour / interior / "
         "extrapolation zone / derivative order)")
@@ -329,6 +329,52 @@ def generate(tier, seed, ctx):
         pref, mul = pick_pref(rng)
         Q = queries_1d(rng, xs, nseg=8, ndense=6)
         R.append(req_1d("c01.eval", "par:%s:%s:%s" % (hx(al), hx(be), hx(ga)), xs, ys, -1.0, -1.0, pref, mul, Q))
+    # ---- joint scale: ordinates inside 1e-20..1e20, abscissa scale 2^Ex huge or tiny, so that the secant slopes span
+    #      ~1e-120 .. 1e+160 (far outside the float range on both sides).  Scales are powers of two (exact), applied either
+    #      directly or through the unit factors x_dim / f_dim.  Limits: (x-x_j)^3 and 1/h^2, y/h^3 must stay finite
+    #      normal doubles in the code as written (IEEE over/underflow is outside the model), hence |Ex| <= ~330.
+    for k in range(240 if thorough else 30):
+        mode = ("lin", "par", "gen")[k % 3]
+        via_units = (k // 3) % 2 == 0
+        pref, mul = pick_pref(rng)
+        if mode == "lin":
+            Ex = rng.choice([rng.randint(-480, -120), rng.randint(120, 330), rng.randint(-480, 330)])
+            Ey = rng.randint(-66, 48)
+            N = rng.choice([3, 4, 7, 20])
+            g = sorted(set(rng.randint(-1000, 1000) for _ in range(N + 3)))
+            if len(g) < 3:
+                continue
+            km = 8 * rng.randint(-15, 15) if k % 9 else 0
+            kq = rng.choice([0, rng.randint(-64, 64)])
+            x0 = [float(v) for v in g]; y0 = [float(km * v + kq) for v in g]
+            tag_ = "lin:%s:%s:joint" % (hx(math.ldexp(km, Ey - Ex)), hx(math.ldexp(kq, Ey)))
+        elif mode == "par":
+            Ex = rng.choice([rng.randint(-300, -100), rng.randint(100, 300), rng.randint(-300, 300)])
+            Ey = rng.randint(-66, 36)
+            N = rng.choice([3, 4, 6, 15])
+            v = rng.randint(100, 400); g = [v]
+            for _ in range(N - 1):
+                v += rng.randint(1, 90); g.append(v)
+            if rng.random() < 0.5:
+                g = [-t for t in reversed(g)]
+            ka = rng.choice([-1, 1]) * rng.randint(1, 8); kb = 0 if k % 2 else rng.randint(-16, 16); kc = rng.randint(-64, 64)
+            x0 = [float(t) for t in g]; y0 = [float(ka * t * t + kb * t + kc) for t in g]
+            tag_ = "par:%s:%s:%s:joint" % (hx(math.ldexp(ka, Ey - 2 * Ex)), hx(math.ldexp(kb, Ey - Ex)), hx(math.ldexp(kc, Ey)))
+        else:
+            Ex = rng.choice([rng.randint(-280, -60), rng.randint(60, 280)])
+            Ey = rng.randint(-40, 40)
+            N = rng.randint(3, 40)
+            xk = rng.choice(["jitter", "wild", "log"]); yk = rng.choice(["smooth", "monotone", "plateau", "signchange", "zeros", "spike"])
+            x0 = gen_xs(rng, N, xk); y0 = gen_ys(rng, x0, yk)
+            tag_ = "gen:joint:%s:%s" % (xk, yk)
+        xs1 = [math.ldexp(v, Ex) for v in x0]; ys1 = [math.ldexp(v, Ey) for v in y0]
+        assert all(Fraction(a) == Fraction(b) * Fraction(2) ** Ex for a, b in zip(xs1, x0))
+        assert all(Fraction(a) == Fraction(b) * Fraction(2) ** Ey for a, b in zip(ys1, y0))
+        Q = queries_1d(rng, xs1, nseg=8, ndense=6)
+        if via_units:
+            R.append(req_1d("c01.eval", tag_, x0, y0, math.ldexp(1.0, Ex), math.ldexp(1.0, Ey), pref, mul, Q))
+        else:
+            R.append(req_1d("c01.eval", tag_, xs1, ys1, -1.0, -1.0, pref, mul, Q))
     # ---- dyadic uniform tables: double arithmetic is exact, compared exactly -------------------------
     for k in range(600 if thorough else 40):
         N = rng.choice([3, 4, 5, 8, 16, 33])
@@ -661,6 +707,16 @@ def oracle_1d(P, vals, ctx):
                 m = Fraction(fl(tagf[1]))
                 if abs(Fraction(d[1]) - Fraction(pref) * m) > K_DER * EPS * Yj / hj * ap:
                     out.append(fail("prop", "straight-line data: first derivative is not the slope", "x=%r D1=%r" % (x, d[1])))
+            if fam == "lin":
+                for o_ in (2, 3):
+                    if o_ in d and abs(Fraction(d[o_])) > K_DER * EPS * Yj / hj ** o_ * ap:
+                        out.append(fail("prop", "straight-line data: derivative of order %d is not 0" % o_, "x=%r D%d=%r" % (x, o_, d[o_])))
+            if fam == "par" and inactive[j] and inactive[j + 1]:
+                al, be = Fraction(fl(tagf[1])), Fraction(fl(tagf[2]))
+                if 1 in d and abs(Fraction(d[1]) - Fraction(pref) * (2 * al * fx + be)) > K_DER * EPS * Yj / hj * ap:
+                    out.append(fail("prop", "parabola data (limiter inactive): first derivative is not 2*alpha*x+beta", "j=%d x=%r D1=%r" % (j, x, d[1])))
+                if 2 in d and abs(Fraction(d[2]) - Fraction(pref) * 2 * al) > K_DER * EPS * Yj / hj ** 2 * ap:
+                    out.append(fail("prop", "parabola data (limiter inactive): second derivative is not 2*alpha", "j=%d x=%r D2=%r" % (j, x, d[2])))
             # Taylor consistency between consecutive fully observed points of the segment
             if v is not None and all(k in d for k in (1, 2, 3)):
                 if prevT is not None:
